@@ -54,7 +54,9 @@ def gen_perf(w, k):
     parts = []
     tick = F(mpq, 10**6 * ppq)  # seconds per tick
     for pi in range(nparts):
-        tracks = [2 * pi] if w.random() < 0.6 else [2 * pi, 2 * pi + 1]
+        # track numbers as a caller may give them: per part, not necessarily starting at 0, contiguous or distinct
+        # from those of the other parts (Performance() makes them unique without mixing parts)
+        tracks = list(w.choice(([2 * pi], [2 * pi], [2 * pi, 2 * pi + 1], [0], [0, 1], [0, 2], [1, 3], [5], [2, 0])))
         notes = []
         for i in range(k.choice((1, 3, 6, 12))):
             # some onsets exactly on a tick, some exactly at .5 ticks, some arbitrary
